@@ -166,6 +166,101 @@ func runC03(c *Check) {
 		c.ok("C03-R4", "modify:none", "", "no store in the Merge call tree goes through an input object", fmt.Sprintf("%d functions scanned; values are accumulated only into samples taken from the merger's own table", len(names)))
 	}
 
+	// ---- R10 memo tables hold the value that is handed out
+	// A map* function that records a by-value entry (a struct, not a pointer) in one of the
+	// merger's tables and goes on using it must record the finished entry: a field assigned
+	// after the table was updated exists only in the local copy, so the first caller and every
+	// later caller (served from the table) get different translations of the same input object.
+	{
+		nMemo := 0
+		for _, n := range names {
+			if strings.HasSuffix(n, ".key") {
+				continue
+			}
+			forEachFuncAndAnon(tree[n], func(g *ssa.Function) {
+				for _, b := range g.Blocks {
+					for _, ins := range b.Instrs {
+						mu, ok := ins.(*ssa.MapUpdate)
+						if !ok {
+							continue
+						}
+						if _, isStruct := mu.Value.Type().Underlying().(*types.Struct); !isStruct {
+							continue
+						}
+						if base, _ := addrBase(mu.Map); base == nil || !strings.Contains(typeShort(base.Type()), "profileMerger") {
+							continue
+						}
+						nMemo++
+						key := fmt.Sprintf("memo:%s:%s#%d", fnName(g), describeValue(mu.Map), nMemo)
+						var cell *ssa.Alloc
+						if ld, ok := mu.Value.(*ssa.UnOp); ok && ld.Op == token.MUL {
+							cell, _ = ld.X.(*ssa.Alloc)
+						}
+						var late ssa.Instruction
+						if cell != nil {
+							for _, b2 := range g.Blocks {
+								for _, i2 := range b2.Instrs {
+									st, ok := i2.(*ssa.Store)
+									if !ok {
+										continue
+									}
+									if ab, loads := addrBase(st.Addr); ab != ssa.Value(cell) || loads != 0 {
+										continue
+									}
+									after := (b2 == b && instrIndex(st) > instrIndex(mu)) || (b2 != b && blockReachesPlain(b, b2)) || (b2 == b && cycleAvoiding(b, nil))
+									if after && late == nil {
+										late = st
+									}
+								}
+							}
+						}
+						// the value returned on the paths that pass the update
+						mismatch := ""
+						if res := g.Signature.Results(); late == nil && res.Len() >= 1 && types.Identical(res.At(0).Type(), mu.Value.Type()) {
+							for _, b2 := range g.Blocks {
+								ret, ok := b2.Instrs[len(b2.Instrs)-1].(*ssa.Return)
+								if !ok || !(b2 == b || blockReachesPlain(b, b2)) {
+									continue
+								}
+								r := ret.Results[0]
+								if r == mu.Value {
+									continue
+								}
+								if ph, ok := r.(*ssa.Phi); ok {
+									same := true
+									for k, e := range ph.Edges {
+										pred := ph.Block().Preds[k]
+										if (pred == b || blockReachesPlain(b, pred)) && e != mu.Value {
+											same = false
+										}
+									}
+									if same {
+										continue
+									}
+								}
+								if rl, ok := r.(*ssa.UnOp); ok && rl.Op == token.MUL && cell != nil && rl.X == ssa.Value(cell) {
+									continue // same variable, no store in between (checked above)
+								}
+								mismatch = p.relFile(ret.Pos())
+							}
+						}
+						switch {
+						case late != nil:
+							c.bad("C03-R10", key, p.relFile(late.Pos()), fmt.Sprintf("%s records a %s in %s and assigns to the local copy afterwards: the recorded entry lacks the later assignment, so objects translated through the table and the one translated first disagree", fnName(g), typeShort(mu.Value.Type()), describeValue(mu.Map)))
+						case mismatch != "":
+							c.bad("C03-R10", key, mismatch, fmt.Sprintf("%s records one %s in %s and returns another", fnName(g), typeShort(mu.Value.Type()), describeValue(mu.Map)))
+						default:
+							c.ok("C03-R10", key, p.relFile(mu.Pos()), fnName(g)+" records in "+describeValue(mu.Map)+" the entry it hands out", "no store into the recorded variable is reachable after the table update; the value returned on the paths through the update is the recorded one")
+						}
+					}
+				}
+			})
+		}
+		if nMemo == 0 {
+			c.ok("C03-R10", "memo:none", "", "no by-value entries are recorded in the merger's tables", "nothing to compare")
+		}
+	}
+
 	// ---- R6 zero-sample scan before every successful return of Merge
 	{
 		mg := tree["Merge"]
